@@ -35,7 +35,8 @@ RULE = ('cases = groups of up to 4 flag vectors of equal length n (1..5) over {0
         'with its own random photometry, ignored bands carrying arbitrary values incl. non-positive ones, -999, signed zeros with '
         'and without error, +-inf, NaN, 1e+-300 (a directed block puts every entry of IGNORED_ALPHABET into a flag-9 and a flag-0 '
         'slot; pair (a) is taken against the same source with ordinary values on those bands, which must fit finitely), limit '
-        'confidences from {0, (0,1), 1}, one random distance-independent and one distance-dependent package per case; '
+        'confidences from {0, (0,1), 1}, one random distance-independent package (convolved-flux files with named filters, or an '
+        'SED cube fitted at wavelengths given as Quantities, with use_memmap off / on) and one distance-dependent package per case; '
         'non-trivial = at least one vector of the group has a non-singular fit in some mode (>= 2 fitted bands with '
         'distinct extinction coefficient, resp. >= 1 fitted band); distinct = canonical hash of the generated inputs')
 REQUIRED_BRANCHES = ['flag0', 'flag1', 'flag2', 'flag3', 'flag4', 'flag9', 'conf0', 'conf1', 'conf_mid',
@@ -43,7 +44,8 @@ REQUIRED_BRANCHES = ['flag0', 'flag1', 'flag2', 'flag3', 'flag4', 'flag9', 'conf
                      'limit_violated', 'limit_ok', 'conf1_violated', 'pair_ignored', 'pair_conf0', 'pair_flag4',
                      'model_corr', 'singular', 'ignored_zero_flux_nonzero_err_flag0', 'ignored_zero_flux_nonzero_err_flag9',
                      'ignored_zero_flux_zero_err', 'ignored_inf', 'ignored_nan', 'ignored_huge_tiny',
-                     'exact_tie_indep', 'exact_tie_dist', 'exact_tie_model']
+                     'exact_tie_indep', 'exact_tie_dist', 'exact_tie_model',
+                     'indep_files', 'indep_cube_wav', 'indep_cube_wav_memmap']
 ASSUMPTIONS = ['IEEE rounding is not modelled: model comparison tolerance 1e-9 x condition number; paired real runs are '
                'compared to 1e-12 relative (they are bit-identical on the unchanged tree)',
                'limit decisions closer than 1e-9 to the threshold are skipped (counted as margin_relaxed) - except constructed '
@@ -53,6 +55,9 @@ ASSUMPTIONS = ['IEEE rounding is not modelled: model comparison tolerance 1e-9 x
                'fits with fewer than 2 fitted bands of distinct extinction coefficient (distance-independent) or no '
                'fitted band (distance-dependent) are singular (outside the grids of C01/C02: every output is NaN or '
                'rounding noise): only the NaN-aware identity of paired runs (a) is checked there',
+               'failures of clauses owned by other properties (source modified: C11; n_data: C05; ranking: C04) are reported as broken '
+               'correspondence (violates=None), not as C03 violations',
+               'with use_memmap=True (float32 model fluxes) only the paired real runs and the penalty arithmetic are checked',
                'the distance-dependent mode is checked on the real code only (paired runs + penalty arithmetic); its model '
                'correspondence is C02']
 EXHAUSTIVE = {'quick': False, 'thorough': True}
@@ -146,7 +151,7 @@ def gen_source(rng, vec, models, wavs, directed=None, ign=None):
     return dict(flags=list(vec), lin=lin, lim=lim, ign_a=ign_a, ign_b=ign_b)
 
 
-def gen_case(rng, vectors, directed_ids=None):
+def gen_case(rng, vectors, directed_ids=None, fmt=None):
     nb = len(vectors[0])
     nm = rng.randint(1, 6)
     wavs = sorted({nice(rng, 0.3, 100., 3) for _ in range(nb)})
@@ -193,7 +198,9 @@ def gen_case(rng, vectors, directed_ids=None):
         elif did in DIRECTED_LIMITS:
             d = DIRECTED_LIMITS[did]
         sources.append(gen_source(rng, v, models, wavs, d, ign))
-    return dict(wavs=wavs, tab_w=tw, tab_chi=chi, models=models, av=av, kind=kind,
+    if fmt is None:
+        fmt = rng.choice(['files', 'files', 'cube_wav', 'cube_wav_memmap'])
+    return dict(wavs=wavs, tab_w=tw, tab_chi=chi, models=models, av=av, kind=kind, fmt=fmt,
                 aps=aps, grow=grow, drange=[dmin, dmax], theta=theta, step=step, sources=sources)
 
 
@@ -231,6 +238,7 @@ def vector_groups(seed, tier):
     return groups
 
 
+FORMATS = ['files', 'cube_wav', 'cube_wav_memmap']
 TIE_PATTERNS = [[4, 4, 2, 4, 0], [4, 3, 4, 9, 4], [2, 4, 4, 3, 4], [4, 4, 4, 4, 3]]
 N_TIE = {'quick': 8, 'thorough': 80}
 
@@ -250,6 +258,7 @@ def gen_tie_case(rng, patterns, exact_model):
     for attempt in range(40):
         case = gen_case(rng, patterns, None)
         case['kind'] = 'exact_tie'
+        case['fmt'] = 'files'      # float64 storage: the tie is exact only if the model fluxes are held exactly
         case['av'] = [-round(rng.uniform(1, 10), 1), round(rng.uniform(5, 40), 1)]
         # one trial distance, 1 kpc: the distance the model fluxes are tabulated for (d^-2 factor exactly 1)
         case['drange'] = [1., 1.]
@@ -301,7 +310,7 @@ def gen_cases(seed, tier):
             for case in tie_cases(seed, tier):
                 yield case
         rng = case_rng(seed, PID, i)
-        yield gen_case(rng, vectors, dids)
+        yield gen_case(rng, vectors, dids, fmt=(FORMATS[i % 3] if dids is not None else None))
 
 
 # ----------------------------------------------------------------------------- sources derived from one vector
@@ -364,7 +373,24 @@ def variants(src):
 # ----------------------------------------------------------------------------- real side
 
 def build_indep(case, d):
-    return c01.build(case, d)
+    """distance-independent package: convolved-flux files (version 1, named filters), or an SED cube (version 2) fitted at
+    tabulated wavelengths given as Quantities, optionally with `use_memmap=True` (model fluxes held as float32)"""
+    fmt = case.get('fmt', 'files')
+    if fmt == 'files':
+        return c01.build(case, d)
+    from astropy import units as u
+    nm = len(case['models'])
+    names = ['m%03d' % i for i in range(nm)]
+    extra = float('%.3g' % (max(case['wavs']) * 2.5))
+    wav = sorted(list(case['wavs']) + [extra])
+    val = np.ones((nm, 1, len(wav)))
+    for j, w in enumerate(case['wavs']):
+        val[:, 0, wav.index(w)] = [case['models'][i][j] for i in range(nm)]
+    pk.write_cube_package(d, names, wav, val, np.zeros_like(val), apertures_au=None, aperture_dependent=False)
+    ext = pk.make_extinction(case['tab_w'], case['tab_chi'])
+    fitter = pk.make_fitter(d, [w * u.micron for w in case['wavs']], [1.] * len(case['wavs']), ext, case['av'],
+                            use_memmap=(fmt == 'cube_wav_memmap'))
+    return fitter, names
 
 
 def build_dist(case, d):
@@ -570,11 +596,13 @@ def check_mode(case, mode, fitter, names, use_model, branches, stats):
                 return CaseResult(False, violates=True, branches=branches,
                                   detail='%s mode: Fitter.fit raised %s: %s on source %r' % (mode, type(e).__name__, e, s))
             if not res[k]['untouched']:
-                return CaseResult(False, violates=True, branches=branches,
-                                  detail='%s mode: Fitter.fit modified the source %r' % (mode, s))
+                # purity is C11's clause: reported as a broken correspondence, the verdict is not C03's
+                return CaseResult(False, violates=None, branches=branches,
+                                  detail='%s mode: Fitter.fit modified the source %r (C11)' % (mode, s))
             if res[k]['n_data'] != sum(1 for f in s['flags'] if f in (1, 4)):
-                return CaseResult(False, violates=True, branches=branches,
-                                  detail='n_data = %d for flags %r' % (res[k]['n_data'], s['flags']))
+                # the count itself is used by the selectors of C05
+                return CaseResult(False, violates=None, branches=branches,
+                                  detail='n_data = %d for flags %r (C05)' % (res[k]['n_data'], s['flags']))
         A = res['S']
         if sorted(A['name']) != sorted(names):
             return CaseResult(False, violates=True, branches=branches, detail='model names %r' % (A['name'],))
@@ -618,9 +646,15 @@ def check_mode(case, mode, fitter, names, use_model, branches, stats):
                                      % (mode, S, A['av'].tolist(), A['sc'].tolist(), A['chi2'].tolist()))
         cond = 1.
         exp = None
+        if mode == 'indep':
+            branches.add('indep_' + case.get('fmt', 'files'))
         if mode == 'indep' and use_model:
             exp = c01.model_side(case, for_model(S))
             cond = max([1.] + [e['cond'] for e in exp])
+            if case.get('fmt') == 'cube_wav_memmap':
+                # float32 model fluxes: the paired runs below share one fitter and stay comparable to rounding; the
+                # comparison with the exact model under a float32 budget is C07's
+                exp = None
         elif mode == 'indep':
             cond = 1e3
         # (c) flag 1 <-> flag 4
@@ -638,8 +672,9 @@ def check_mode(case, mode, fitter, names, use_model, branches, stats):
                 if err:
                     return CaseResult(False, violates=True, branches=branches, detail='%s mode, (d)/(e): %s' % (mode, err))
                 if not ranked(res[k]):
-                    return CaseResult(False, violates=True, branches=branches,
-                                      detail='%s mode: chi2 not sorted: %r' % (mode, res[k]['chi2'].tolist()))
+                    # ranking is C04's clause
+                    return CaseResult(False, violates=None, branches=branches,
+                                      detail='%s mode: chi2 not sorted: %r (C04)' % (mode, res[k]['chi2'].tolist()))
         # limits never enter the least-squares solution
         if 'limits_off' in res:
             B = res['limits_off']
